@@ -128,7 +128,7 @@ class Task(Awaitable[RT]):
                 # be done via ``Task.__runner__.send(None)`` which we *cannot*
                 # cancel cleanly. An internal suspension means we *can* cancel
                 # the Task pre-run because no time passes until we check that.
-                if delay or at:
+                if delay is not None or at is not None:
                     await suspend(delay=delay, until=at)
                 result = await self.payload
             except CancelTask as err:
